@@ -40,6 +40,15 @@ template<class G> void print_oracles(std::ostream &out, const GCase<G> &c) {
 
 // cycles as emitted: "N <count> CYC <len> <ids in emitted order> <len> ..." ; an id that is not an edge of g prints as ?
 template<class G, class Cycles> void print_cycles(std::ostream &out, const GCase<G> &c, const Cycles &cycles) {
+#if defined(__SANITIZE_ADDRESS__)
+    // sanitizer builds (C07): USE every descriptor handed back by the library with the caller's property map, as a caller
+    // would after the call returned; a descriptor referring to storage the library already released is reported by ASan
+    {
+        double touched = 0;
+        for (auto &cyc : cycles) for (auto &e : cyc) touched += (double) boost::get(boost::edge_weight, c.g, e);
+        if (touched < 0) out << " ";
+    }
+#endif
     out << " N " << cycles.size() << " CYC";
     for (auto &cyc : cycles) {
         out << " " << cyc.size();
